@@ -705,9 +705,35 @@ static void build_expr(WorkList *list, ASTNode *expr, Environment *env) {
             }
             break;
             
-        case AST_STRING:
-            emit_formatted(list, "\"%s\"", expr->as.string_val);
+        case AST_STRING: {
+            /* Emit the literal as written, except for the two things C would change or
+             * refuse: "??x" trigraphs (-std=c99 replaces them) and a raw line break. */
+            const char *sv = expr->as.string_val ? expr->as.string_val : "";
+            size_t sv_len = strlen(sv);
+            char *lit = malloc(sv_len * 2 + 3);
+            if (!lit) {
+                fprintf(stderr, "Error: Out of memory emitting string literal\n");
+                exit(1);
+            }
+            size_t o = 0;
+            lit[o++] = '"';
+            for (size_t k = 0; k < sv_len; k++) {
+                if (sv[k] == '?' && k > 0 && sv[k - 1] == '?') {
+                    lit[o++] = '\\';
+                    lit[o++] = '?';
+                } else if (sv[k] == '\n') {
+                    lit[o++] = '\\';
+                    lit[o++] = 'n';
+                } else {
+                    lit[o++] = sv[k];
+                }
+            }
+            lit[o++] = '"';
+            lit[o] = '\0';
+            emit_literal(list, lit);
+            free(lit);
             break;
+        }
             
         case AST_BOOL:
             emit_literal(list, expr->as.bool_val ? "true" : "false");
